@@ -51,10 +51,19 @@ def build(ctx):
 def execute(ctx, harness, drv, programs, timeout=1200):
     """Run the programs; returns a list of dicts {program, log, verdicts, bad} (one per program), or None after having
     appended to ctx.broken when the machinery itself failed."""
-    rc, out, err = ctx.run_lines([harness, "--log=root.thres:critical"], programs, timeout=timeout)
-    if rc != 0:
-        ctx.broken.append({"kind": "harness-run", "rc": rc, "stderr": err[-2000:]})
-        return None
+    # the harness forks one child per program; run a few harness processes side by side on contiguous chunks
+    import concurrent.futures
+    nw = 1 if len(programs) < 400 else 6
+    size = (len(programs) + nw - 1) // nw
+    chunks = [programs[i:i + size] for i in range(0, len(programs), size)]
+    with concurrent.futures.ThreadPoolExecutor(max_workers=nw) as ex:
+        results = list(ex.map(lambda ch: ctx.run_lines([harness, "--log=root.thres:critical"], ch, timeout=timeout), chunks))
+    out = []
+    for rc, o, err in results:
+        if rc != 0:
+            ctx.broken.append({"kind": "harness-run", "rc": rc, "stderr": err[-2000:]})
+            return None
+        out += o
     out = [canon(l) for l in out if " =>" in l or l.endswith("=>")]
     rc, verdicts, err = ctx.run_lines([drv], out, timeout=timeout)
     if rc != 0 or not verdicts or verdicts[-1] != "END %d" % len(out):
